@@ -138,33 +138,52 @@ def min_sum_dp(masks, costs, nunits, cover=False):
     return float(dp(masks.astype(np.int64), costs.astype(np.float64), int(nunits), bool(cover)))
 
 
-def min_sum_milp(masks, costs, nunits, cover=False, time_limit=60):
+def incidence_from_tuples(tuples, sizes):
+    """units x candidates incidence matrix straight from the index tuples (no bit masks: any number of units)."""
+    from scipy.sparse import csr_matrix
+    offsets = np.concatenate([[0], np.cumsum(sizes)[:-1]]).astype(np.int64)
+    rows, cols = [], []
+    for a, size in enumerate(sizes):
+        real = np.nonzero(tuples[:, a] != size)[0]
+        rows.append(offsets[a] + tuples[real, a])
+        cols.append(real)
+    rows, cols = np.concatenate(rows), np.concatenate(cols)
+    return csr_matrix((np.ones(len(rows)), (rows, cols)), shape=(int(sum(sizes)), len(tuples)))
+
+
+def min_sum_milp(masks, costs, nunits, cover=False, time_limit=60, incidence=None):
     """Same minimum through scipy's HiGHS MILP (not one of the library's two back-ends)."""
     from scipy.optimize import milp, LinearConstraint, Bounds
     from scipy.sparse import csr_matrix
-    rows, cols = [], []
-    for k, m in enumerate(masks):
-        m = int(m)
-        u = 0
-        while m:
-            if m & 1:
-                rows.append(u)
-                cols.append(k)
-            m >>= 1
-            u += 1
-    A = csr_matrix((np.ones(len(rows)), (rows, cols)), shape=(nunits, len(masks)))
+    if incidence is not None:
+        A = incidence
+        single_cols = np.asarray(A.sum(axis=0)).ravel() == 1
+    else:
+        rows, cols = [], []
+        for k, m in enumerate(masks):
+            m = int(m)
+            assert m >= 0, "bit masks overflowed: more than 62 units need the incidence matrix"
+            u = 0
+            while m:
+                if m & 1:
+                    rows.append(u)
+                    cols.append(k)
+                m >>= 1
+                u += 1
+        A = csr_matrix((np.ones(len(rows)), (rows, cols)), shape=(nunits, len(masks)))
+        mm = np.asarray(masks, dtype=np.int64)
+        single_cols = (mm & (mm - 1)) == 0
     con = LinearConstraint(A, lb=np.ones(nunits), ub=(np.full(nunits, np.inf) if cover else np.ones(nunits)))
     # costs are handed over relative to the largest one (solver tolerances are absolute; delta_empty may be 1e-6)
     # (relative to the mean cost of a lone unit, which is of the order of delta_empty; a candidate dearer than all lone
     # units together is never part of an optimum, so the huge costs of far-apart units are clipped: they would otherwise
     # dwarf the relevant ones)
     c = np.asarray(costs, dtype=np.float64)
-    m = np.asarray(masks, dtype=np.int64)
-    single = (m & (m - 1)) == 0
+    single = single_cols
     total_single = float(c[single].sum()) if single.any() else 0.0
     scale = total_single / max(1, int(single.sum())) if total_single > 0 else 1.0
     cc = np.minimum(c, 2.0 * total_single) if total_single > 0 else c
-    res = milp(c=cc / scale, constraints=[con], integrality=np.ones(len(masks)),
+    res = milp(c=cc / scale, constraints=[con], integrality=np.ones(len(c)),
                bounds=Bounds(0, 1), options={"time_limit": time_limit, "mip_rel_gap": 0.0})   # default gap is 1e-4: not an exact oracle
     if not res.success:
         return None
@@ -198,13 +217,13 @@ def optimum(cspec, dissim, cover=False, want="auto"):
     mats = pair_matrices(arrays, dissim.d_mat, dissim.delta_empty)
     tensor = tuple_cost_tensor(mats, sizes)
     tuples, costs = all_candidates(tensor, sizes)
-    masks = candidate_masks(tuples, sizes)
+    masks = candidate_masks(tuples, sizes) if nunits <= 60 else None
     avg = nunits / len(sizes)
     methods = {}
     if nunits <= 14 or (want == "dp" and nunits <= 18):
         methods["dp"] = min_sum_dp(masks, costs, nunits, cover) / avg
     if want in ("both", "milp") or nunits > 14:
-        v = min_sum_milp(masks, costs, nunits, cover)
+        v = min_sum_milp(masks, costs, nunits, cover, incidence=None if masks is not None else incidence_from_tuples(tuples, sizes))
         if v is not None:
             methods["milp"] = v / avg
     if len(sizes) == 2 and not cover:
